@@ -367,8 +367,9 @@ impl Iterator for SrcIter {
         } else {
             None
         };
-        // log-only: this runs inside the concurrent iterator's critical section, parking here would dead-lock
-        sched::note(Kind::SrcNext, 0, r.map(|x| x.0).unwrap_or(0), self.pos as u64);
+        // a yield point inside the concurrent iterator's critical section: the threads that want the handle
+        // meanwhile yield from the (hooked) spin loop of the vendored dependency instead of spinning for ever
+        let r = if sched::hit(Kind::SrcNext, 0, r.map(|x| x.0).unwrap_or(0), self.pos as u64) { None } else { r };
         let out = r.map(|(id, v)| Tok::leaf(id, v));
         self.entered.store(false, Ordering::SeqCst);
         out
